@@ -201,6 +201,16 @@ theorem compl_spectrum_pure {ι m : Type} [Fintype ι] [Fintype m] [DecidableEq 
         (Matrix.of fun i j => Matrix.trace (K i * Matrix.vecMulVec ψ (star ψ) * (K j).conjTranspose)).charpoly :=
   compl_spectrum_matrix K ψ
 
+/-- **Same non-zero spectrum on pure inputs, for the model outputs.**  For a list of `d × d` operators and
+    `ρ = ψψᴴ`, the matrix returned by `apply_channel` on the list (`d × d`) and the matrix returned on the
+    complementary list (`r × r`) satisfy `X^r · χ_{Φ(ρ)} = X^d · χ_{Φᶜ(ρ)}`. -/
+theorem compl_spectrum_pure_model (ops : List (Mat α)) (d : Nat) (hs : Shaped ops d d) (psi : Nat → α) (rho : Mat α)
+    (hr : rho.r = d) (hc : rho.c = d) (hrho : ∀ a b, rho.e a b = psi a * star (psi b)) :
+    Polynomial.X ^ ops.length * (toM d d (applyKrausLists rho ops ops).e).charpoly
+      = Polynomial.X ^ d *
+        (toM ops.length ops.length (applyKrausLists rho (complList ops d) (complList ops d)).e).charpoly :=
+  compl_spectrum_model ops d hs psi rho hr hc hrho
+
 /-! ## non-vacuity -/
 
 /-- the hypotheses are satisfiable and the models compute: a non-CP map `M_{2} → M_{2}` given by one pair
